@@ -269,9 +269,7 @@ func totalRuns(text string, params map[string]interface{}) (out [3]totalOutcome)
 	deadline := 5*time.Second + time.Duration(len(text))*50*time.Microsecond
 	mk := func() *influxql.Parser {
 		p := influxql.NewParser(strings.NewReader(text))
-		if len(params) > 0 {
-			p.SetParams(params)
-		}
+		applyParams(p, text, params)
 		return p
 	}
 	return [3]totalOutcome{
